@@ -1,4 +1,5 @@
 import KitModel.Pool
+import KitModel.Generated.C20
 import KitProofs.Lemmas.Pool
 /-!
 # C20 — context.Pool: done exactly when all members are done (or Cancel), never earlier
@@ -368,5 +369,63 @@ theorem sim_sound (cfg : Config) (evs : List Event) :
     | nil => intro sim h; exact h
     | cons e es ih => intro sim h; exact ih _ (allReach_advance sim e h)
   exact this evs _ (allReach_start cfg)
+
+/-! ## T1: the source shape the model was written from
+
+`KitModel/Generated/C20.lean` is regenerated from `/repo/context/pool.go` on every run.  Each
+theorem below fixes one piece of that shape and names the part of `Kit.Pool` it justifies; when
+pool.go changes shape the theorem no longer checks and the tie is reported as broken. -/
+section T1
+open Kit.Generated.C20
+
+/-- `closed`, `pool`, one `sync.RWMutex`, the embedded pool context: the components of `State`. -/
+theorem t1_fields : poolFields =
+    ["embedded context.Context", "closed chan struct{}", "pool []<-chan struct{}", "lock sync.RWMutex"] := by
+  decide
+
+/-- `init`: `p.pool` is a non-nil slice of the contexts not yet done (`initLive`), and the read
+lock is taken by `NewPool` itself right before `go` (`pc = head 0` holds the lock). -/
+theorem t1_new_pool : newPoolBeforeGo =
+    ["callee, cancel := context.WithCancel(context.Background())",
+     "p := &Pool{Context: callee, pool: make([]<-chan struct{}, 0, len(ctx)), closed: make(chan struct{})}",
+     "for i := range ctx { select { case <-ctx[i].Done():  | default: p.pool = append(p.pool, ctx[i].Done()) } }",
+     "p.lock.RLock()"] ∧ newPoolAfterGo = ["return p"] := by
+  decide
+
+/-- Defers run last-in-first-out: `RUnlock` (`wUnlock`), the hook (`released`), `cancel()` (`wCancel`). -/
+theorem t1_watcher_exit_order : watcherDefers.reverse =
+    ["p.lock.RUnlock()", "verifhook.Point(\"pool.watch.beforeCancel\")", "cancel()"] := by
+  decide
+
+/-- The loop: condition and `ch := p.pool[i]` under the read lock, `RUnlock` (`wHead`); the
+two-case select (`wWake`); the hook (`woken i`); `RLock`, `i++` (`wRelock`). -/
+theorem t1_watcher_loop : watcherLoop =
+    ["for i := 0; i < len(p.pool); i++",
+     "ch := p.pool[i]",
+     "p.lock.RUnlock()",
+     "select { case <-ch:  | case <-p.closed:  }",
+     "verifhook.Point(\"pool.watch.afterWait\", i)",
+     "p.lock.RLock()"] := by
+  decide
+
+/-- `applyOp (.add c)`: whole body under the write lock; ignored iff the pool context or `closed` is done. -/
+theorem t1_add : addBody =
+    ["p.lock.Lock()",
+     "defer p.lock.Unlock()",
+     "select { case <-p.Done():  | case <-p.closed:  | default: p.pool = append(p.pool, ctx.Done()) }",
+     "return p"] := by
+  decide
+
+/-- `applyOp .cancel`: whole body under the write lock; `closed` is closed once, guarded by `p.pool != nil`. -/
+theorem t1_cancel : cancelBody =
+    ["p.lock.Lock()", "defer p.lock.Unlock()", "if p.pool != nil { close(p.closed); p.pool = nil }"] := by
+  decide
+
+/-- `size n`: `len(p.pool)` under the read lock. -/
+theorem t1_size : sizeBody =
+    ["p.lock.RLock()", "defer p.lock.RUnlock()", "return len(p.pool)"] := by
+  decide
+
+end T1
 
 end Kit.Pool.C20
